@@ -113,6 +113,10 @@ def setup_engine(E):
     E.I.contracts["a816.cpu.mapping.Address.__add__"] = "vf.specs.busmodel.address_add_spec"
 
 
+def live_bus_cases(E):
+    return [Case(H + "lorom_bus_contract", "live low_rom_bus", shape_builtin("low_rom_bus")), Case(H + "hirom_bus_contract", "live high_rom_bus", shape_builtin("high_rom_bus"))]
+
+
 def cases(E):
     cs = []
     for mask in (0x8000, 0x10000):
@@ -139,9 +143,16 @@ def cases(E):
                 cs.append(Case(H + "bus_map_contract", f"id={ident},mirror={with_mirror},window={mask:#x},{'RAM' if wr else 'ROM'}",
                                shape_bus_map(ident, mask, wr, with_mirror), target=["a816.cpu.mapping.Bus.map"]))
     cs.append(Case(H + "bus_map_contract", "frozen", shape_bus_map("X", 0x8000, False, True, editable=False), target=["a816.cpu.mapping.Bus.map"]))
-    cs.append(Case(H + "lorom_bus_contract", "live low_rom_bus", shape_builtin("low_rom_bus")))
-    cs.append(Case(H + "hirom_bus_contract", "live high_rom_bus", shape_builtin("high_rom_bus")))
+    cs += live_bus_cases(E)
+    for attr in ("low_rom_bus", "high_rom_bus"):
+        cs.append(Case(H + "beyond_bus_contract", f"live {attr}", shape_builtin(attr), target=["a816.cpu.mapping.Address._get_bank", "a816.cpu.mapping.Address._get_mapping"]))
+    # the consumer of the translation: `*=` sets the output offset to the translated file offset (offset 0 included), on every bus kind
+    from vf.props import C03 as c03
+    cs += c03.set_position_cases(E)
     return cs
+
+
+OPTIONAL_CHECKS = {"set_position_contract": ["unmapped_rejected", "unmapped_changes_nothing", "mapped", "run_address_is_target", "rom_offset_set", "rom_pc_is_physical", "ram_offset_unchanged"]}
 
 
 QUICK_MUTANTS = 3
